@@ -143,7 +143,8 @@ def run(run):
     run.log("catalogue: %d objects" % len(cat))
     events, owners = collect(run, cat, rng, quick, object_events)
     run.log("%d events recorded" % len(events))
-    mism = tv.validate(run, "Trace_BlockCode", events, name="TV C01", timeout=3000, count_trace=False)
+    mism = tv.validate_sharded(run, "Trace_BlockCode", events, (lambda e: e["ev"] == "Construct"), name="TV C01", max_events=30000, jobs=8)
+    run.traces -= 1        # traces are counted per constructed object below
     run.traces += sum(1 for e in events if e["ev"] == "Construct")
     report(run, mism, events, owners)
     run.sample({k: v for k, v in events[0].items()})
